@@ -22,7 +22,7 @@ import json, os, shutil, struct, sys, zlib
 import vlib
 import C06 as base
 
-VARIANT = 0        # which proposed repairs the library under test contains (found out by detect_variant)
+VARIANT = 0        # 0 = the library behaves like /repo HEAD; bits 2,3,4 = that former defect is back; bit 5 = notes/fix_C18_3.diff present
 PID = "C18"
 PROP_FILE = "Props/Properties_C18.v"
 EXTRACT = "Extract/Extract_C18.vo"
@@ -33,6 +33,11 @@ EXT_ENC = 0xC0A1E5CE
 DEF_USERCAP = 0x1B000007
 DEF_MAXUNSOL = 20 * (1 << 20)
 fmt = base.fmt_text
+
+
+def ext_limit():
+    """limit on the (compressed) extended message: 1 MiB, plus 1 KiB with the proposed notes/fix_C18_3.diff"""
+    return LIMIT + (1024 if VARIANT & 32 else 0)
 
 
 def hx(b):
@@ -134,10 +139,12 @@ class Builder:
         m = bytes([2, 0]) + struct.pack(">H", len(encs)) + b"".join(be32(e) for e in encs)
         self.add("send %d %s" % (cid, base.frag_text(base.fragment(self.rng, m))), ev=[])
         out = []
-        for e in encs:
-            if e == EXT_ENC and self.utf8cb:
-                c.ext = True
-                out.append("%d:1:8:1700000100100000" % cid)
+        if c.alive:
+            c.ext = False               # every SetEncodings first withdraws the capability (2d15d75)
+            for e in encs:
+                if e == EXT_ENC and self.utf8cb:
+                    c.ext = True
+                    out.append("%d:1:8:1700000100100000" % cid)
         self.add("p", ev=[], out=out)
 
     def rc(self, cid, utf8):
@@ -187,7 +194,7 @@ class Builder:
             return
         self.add("rc_utf8 %d %s" % (cid, hx(text)), ev=[])
         self.add("p", ev=[])                        # the Notify
-        if 4 + len(z) > LIMIT:
+        if 4 + len(z) > ext_limit():
             # the COMPRESSED message exceeds the ClientCutText limit although the text does not
             self.add("p", ev=["U:%d:%d:%s:0" % (cid, len(text) + 1, fmt(text + b"\0"))], gone=[])
             self.known_bad = "incompressible"
@@ -225,7 +232,7 @@ class Builder:
             # the extension is off: a "negative" length is just a huge classic length
             self.send_ext(cid, payload, [], closes=True)
             return
-        if len(payload) > LIMIT:
+        if len(payload) > ext_limit():
             self.send_ext(cid, payload, [], closes=True)
             return
         ev = [] if c.vo else ["U:%d:%d:%s:0" % (cid, len(data), fmt(data))]
@@ -260,7 +267,7 @@ class Builder:
                     self.zdef("cmp", content, z)
                     self.zdef("inf", z, content, "E")
                     if c.is_rc:
-                        if 4 + len(z) <= LIMIT and len(data) <= LIMIT:
+                        if 4 + len(z) <= ext_limit() and len(data) <= LIMIT:
                             c.pending_rc.append("GU:%d:%d:%s:0" % (c.id, len(data), fmt(data)))
                         else:
                             c.pending_rc.append("GD:%d" % c.id)
@@ -380,8 +387,37 @@ def case_ext_peer(rng):
                 else:
                     c.maxunsol = sizes[0]
                 b.send_ext(cid, payload, [])
-        elif c.alive and c.ext:
+        elif c.alive and c.ext and rng.random() < 0.5:
             b.send_ext(cid, be32(NOTIFY | TEXT), [])
+        elif c.alive:
+            # the client sends SetEncodings again: with the pseudo-encoding (capabilities again) or without (withdrawn)
+            encs = rng.choice([[], [0, 5], [EXT_ENC], [7, EXT_ENC, 16], [0xFFFFFF11]])
+            b.set_encodings(cid, encs)
+    return b
+
+
+def case_ext_viewonly(rng):
+    """C06's statement covers clipboard messages of view-only clients: extended-clipboard Provides (and classic texts)
+    from connections that are view-only by the application's hook or by a later application decision never reach
+    setXCutTextUTF8 / setXCutText, while the same messages of an ordinary connection do."""
+    b = Builder(rng, "extviewonly")
+    n = rng.randint(2, 3)
+    for i in range(n):
+        b.peer(i, ext=True, vo=(i == 0 or rng.random() < 0.4), frag=rng.random() < 0.3)
+    for _ in range(rng.randint(4, 10)):
+        cid = rng.randrange(n)
+        r = rng.random()
+        if r < 0.55:
+            b.provide(cid, rnd_text(rng), stream=rng.choice(["sync", "finish"]))
+        elif r < 0.75:
+            b.put_classic(cid, rnd_text(rng))
+        elif r < 0.9:
+            c = b.conns[cid]
+            if c.alive:
+                c.vo = not c.vo
+                b.add("vo %d %d" % (cid, 1 if c.vo else 0), ev=[])
+        else:
+            b.pubu(rnd_text(rng), rnd_text(rng))
     return b
 
 
@@ -539,6 +575,8 @@ def gen_cases(ctx):
         cases.append(case_malformed(rng))
     for _ in range(80 * mult):
         cases.append(case_realclient(rng))
+    for _ in range(30 * mult):
+        cases.append(case_ext_viewonly(rng))
     for w in ["classic-1MiB-s2c", "classic-1MiB-c2s", "utf8-big-compressible", "utf8-size-limit",
               "utf8-incompressible-c2s", "utf8-incompressible-s2c", "null-fallback"]:
         for _ in range(1 if quick else 3):
@@ -562,28 +600,50 @@ def build(ctx):
     return cexe, mexe, proof_ok
 
 
+def incompressible(n, salt=b"C18"):
+    """n bytes zlib cannot shrink, the same on every run"""
+    import hashlib
+    out = hashlib.shake_256(salt).digest(n)
+    return out[:-1] + (b"\xbf" if out[-1] == 0xbe else out[-1:])
+
+
 def probe_script():
     short = be32(100) + b"abc"
     zs = zlib.compress(short)
+    big = incompressible(LIMIT - 1) + b"\0"
+    zb = zsync(be32(len(big)) + big)
     L = ["case 0 probe", "screen 100 80 0 0 0 0 0 0 1",
          "connect 0 0", "send 0 524642203030332e3030380a0101", "p", "p", "p", "hsdone 0",
          "connect 1 0", "send 1 524642203030332e3030380a0101", "p", "p", "p", "hsdone 1", "send 1 02000001c0a1e5ce", "p",
+         "connect 2 0", "send 2 524642203030332e3030380a0101", "p", "p", "p", "hsdone 2", "send 2 02000001c0a1e5ce", "p",
+         "connect 3 0", "send 3 524642203030332e3030380a0101", "p", "p", "p", "hsdone 3", "send 3 02000001c0a1e5ce", "p",
          "pubu 61 N",
-         "send 1 " + hx(bytes([6, 0, 0, 0]) + be32(-(4 + len(zs))) + be32(PROVIDE | TEXT) + zs), "p"]
+         "send 1 " + hx(bytes([6, 0, 0, 0]) + be32(-(4 + len(zs))) + be32(PROVIDE | TEXT) + zs), "p",
+         "send 2 02000000", "p",
+         "send 3 " + hx(bytes([6, 0, 0, 0]) + be32(-(4 + len(zb))) + be32(PROVIDE | TEXT) + zb), "p"]
     return "\n".join(L) + "\n"
 
 
 def detect_variant(cexe):
-    """which of the proposed repairs (notes/fix_C18_1 = bit 2, fix_C18_2 = bit 3) does the library contain?"""
-    rc, out, err = vlib.run_driver(cexe, probe_script(), timeout=120, env=C_ENV)
+    """The model's baseline (variant 0) is the code with the repairs 3fe86ea (bit 2: send mutex), 260e10a (bit 3: short
+    stream), 2d15d75 (bit 4: SetEncodings resets the capability).  A set bit = the former defect is back in the library
+    under test (the model follows, the independent oracle reports it).  Bit 5 = the library contains the PROPOSED
+    notes/fix_C18_3.diff (slack for the compressed form)."""
+    rc, out, err = vlib.run_driver(cexe, probe_script(), timeout=300, env=C_ENV)
     lines = [l for l in out.split("\n") if l]
     v = 0
-    pub = [l for l in lines if l.startswith("pubu ")]
-    if pub and pub[0].rstrip().endswith("lk=[]"):
+    pub = [parse_line(l) for l in lines if l.startswith("pubu ")]
+    if pub and pub[0] and pub[0]["lk"]:
         v |= 4
-    last = parse_line(lines[-1]) if lines else None
-    if last is not None and not any(e.startswith("U:") for e in last["ev"]) and not any(c[0] == "1" for c in last["cl"]):
-        v |= 8
+    ps = [parse_line(l) for l in lines if l.startswith("p ")]
+    if len(ps) >= 3:
+        p1, p2, p3 = ps[-3], ps[-2], ps[-1]
+        if p1 and any(e.startswith("U:1:") for e in p1["ev"]):
+            v |= 8
+        if p2 and any(c[0] == "2" and c[6] == "1" for c in p2["cl"]):
+            v |= 16
+        if p3 and any(e.startswith("U:3:") for e in p3["ev"]):
+            v |= 32
     return v
 
 
@@ -674,7 +734,8 @@ def check(ctx):
     global VARIANT
     cexe, mexe, proof_ok = build(ctx)
     VARIANT = detect_variant(cexe)
-    ctx.coverage["library_variant"] = {"fix_C18_1_unlock": bool(VARIANT & 4), "fix_C18_2_short_stream": bool(VARIANT & 8)}
+    ctx.coverage["library_variant"] = {"legacy_null_fallback_mutex": bool(VARIANT & 4), "legacy_short_stream_delivered": bool(VARIANT & 8),
+                                       "legacy_setencodings_keeps_extclip": bool(VARIANT & 16), "proposed_fix_C18_3_present": bool(VARIANT & 32)}
     cases = gen_cases(ctx)
     chunks = []
     cdir = os.path.join(vlib.VERIF, "corpus", PID)
@@ -712,7 +773,7 @@ def check(ctx):
                     distinct.add((kind, f[0], f[2] if len(f) > 2 else "", f[3] if len(f) > 3 else ""))
                 for o in p["out"]:
                     f = o.split(":")
-                    distinct.add((kind, "out" + f[1], f[2], f[3] if len(f) > 3 else ""))
+                    distinct.add((kind, "out" + f[1], f[2] if len(f) > 2 else "", f[3] if len(f) > 3 else ""))
         if idx >= base_n:
             b = cases[idx - base_n]
             e, feat = judge(b, il)
@@ -790,10 +851,23 @@ def replay(ctx, path):
     if "script:\n" not in txt:
         print("replay names a theorem/correspondence, re-running the full check")
         return check(ctx)
+    cexe, mexe, proof_ok = build(ctx)
+    return replay_script(ctx, txt, cexe, mexe)
+
+
+def replay_script(ctx, txt, cexe=None, mexe=None):
+    global VARIANT
     body = txt.split("script:\n", 1)[1].split("\n\n", 1)[0]
     lines = [l for l in body.split("\n") if l.strip()]
-    global VARIANT
-    cexe, mexe, proof_ok = build(ctx)
+    if cexe is None:
+        os.makedirs(os.path.join(vlib.BUILD, "ocaml", PID), exist_ok=True)
+        cexe = vlib.build_harness("vdrv_clip", ["vdrv_clip.c"], wraps=("select", "gettimeofday"), client=True)
+        src, dst = os.path.join(vlib.VERIF, "build", "ocaml", PID), os.path.join(vlib.BUILD, "ocaml", PID)
+        if os.path.abspath(src) != os.path.abspath(dst):
+            for fn in ("model.ml", "model.mli"):
+                if os.path.exists(os.path.join(src, fn)):
+                    shutil.copy(os.path.join(src, fn), os.path.join(dst, fn))
+        mexe = vlib.build_ocaml(PID, "driver_C18.ml", EXTRACT)
     VARIANT = detect_variant(cexe)
     lines = [(" ".join(l.split()[:10]) + " %d" % VARIANT) if l.startswith("screen ") else l for l in lines]
     (r1, co, ce), (r2, mo, me) = run_both(cexe, mexe, "\n".join(lines) + "\n")
